@@ -396,16 +396,20 @@ def search(ctx, broken, corr_failures):
 
 
 def explains(broken_item, found):
-    """A concrete failing input explains a broken obligation only when it is about the same function AND is not an
-    already known finding; the two known defects that make the implementation raise where the model returns a value
-    explain exactly the correspondence disagreements they cause."""
-    b = broken_item
-    keys = {v.key for v in found}
+    """A NEW concrete failing input (never a recorded finding) explains a broken obligation when it is about the same
+    loss function; obligations that name no specific loss are explained by any new concrete violation."""
     known, _ = vlib.load_findings()
-    fresh = " ".join(k for k in keys if k not in known)
-    fns = ["tversky_loss", "tversky_index", "tversky", "dice", "ncc", "wlcc", "lcc", "ssd", "mse", "mae", "l1", "huber", "smooth_l1", "mi_loss"]
-    hit = [f for f in fns if f in b]
-    return bool(hit) and any(f in fresh for f in hit)
+    fresh = [v.key.lower() for v in found if v.key not in known]
+    if not fresh:
+        return False
+    b = broken_item.lower()
+    table = [(("tversky",), ("tversky",)), (("dice",), ("dice", "tversky")), (("ncc",), ("ncc",)), (("wlcc",), ("wlcc",)),
+             (("lcc",), ("lcc",)), (("mi_", "nmi", "hist", "p_joint"), ("mi_loss", "nmi")),
+             (("ssd", "mse", "mae", "l1", "huber", "smooth_l1", "pointwise", "bcast"), ("ssd", "mse", "mae", "l1", "huber", "smooth"))]
+    for bs, ks in table:
+        if any(x in b for x in bs):
+            return any(k_ in key for k_ in ks for key in fresh)
+    return True
 
 
 def replay(ctx, data):
